@@ -19,7 +19,7 @@ pub fn check() -> Check {
         spec: CheckSpec {
             id: "C16",
             level: "exploration",
-            rule: "one case = one shutdown of a child process running the real Server over a real store, with 2-8 clients put into drawn states before the trigger: idle; half a frame sent; streaming commands (the server's data-file writes are delayed 5-60 ms by the shim so that the trigger lands while a command is executing on a blocking thread); reading a large (0.3-1 MB) reply slowly. The shutdown future is completed at a seeded moment. Recorded: microseconds from the trigger to Server::run returning (reported by the child), the complete byte stream every client received until end-of-stream or reset, the store dumped after run() returned. Oracle: run() returns within 15 s plus the injected delays; every client stream parses (reference decoder) as whole replies followed by EOF/reset with no partial frame at the end, and the replies are the right ones for that client's commands in order; per client (own keys, sequential) the dumped store equals the effect of all commands whose reply arrived plus some prefix of the commands sent without a reply. Every 8th case runs the real `svr` binary with SIGINT instead and reopens the directory afterwards. Non-trivial = a shutdown that fired while at least one client was mid-frame or had a command in flight; distinct = by (client states, trigger delay bucket, commands acknowledged).",
+            rule: "one case = one shutdown of a child process running the real Server over a real store, with 2-8 clients put into drawn states before the trigger: idle; half a frame sent; streaming commands (the server's data-file writes are delayed 5-60 ms by the shim so that the trigger lands while a command is executing on a blocking thread); reading a large (0.3-1 MB) reply slowly; flooding (requests back to back, never waiting); trickling (a large SET arriving one byte every 1-3 ms, also after the trigger). The shutdown future is completed at a seeded moment. Recorded: microseconds from the trigger to Server::run returning (reported by the child), the complete byte stream every client received until end-of-stream or reset, the store dumped after run() returned. Oracle: run() returns within 15 s plus the injected delays; every client stream parses (reference decoder) as whole replies followed by EOF/reset with no partial frame at the end, and the replies are the right ones for that client's commands in order; per client (own keys, sequential) the dumped store equals the effect of all commands whose reply arrived plus some prefix of the commands sent without a reply. Every 8th case runs the real `svr` binary with SIGINT instead and reopens the directory afterwards. Non-trivial = a shutdown that fired while at least one client was mid-frame or had a command in flight; distinct = by (client states, trigger delay bucket, commands acknowledged).",
             assumptions: vec!["clients always go on reading: a client that never reads its reply makes 'bounded time' and 'no torn reply' contradict each other, so that case is outside the property", "the 15 s bound is wall clock with generous slack (run() returns in milliseconds on this machine)"],
             death_is_violation: false,
         },
@@ -43,6 +43,9 @@ enum State {
     /// keeps requests pending at all times: a writer thread sends SETs back to back without
     /// waiting for replies while the replies are read concurrently
     Flooding,
+    /// one complete command, then a large SET that arrives one byte every 1-3 ms and goes on
+    /// arriving after the shutdown signal (it would take many minutes to complete)
+    Trickling,
 }
 
 struct ClientResult {
@@ -164,6 +167,42 @@ fn client(port: u16, id: usize, state: State, seed: u64, stop_after: Duration) -
             res.received = std::mem::take(&mut rx.buf);
             return res;
         }
+        State::Trickling => {
+            let k = key(0);
+            let v = b"whole".to_vec();
+            let _ = tx.write_all(&command(&[b"SET", &k, &v]));
+            res.sent.push((k.clone(), Some(v)));
+            res.expected.push(b"+OK\r\n".to_vec());
+            let big = command(&[b"SET", &key(1), &vec![b't'; 1_000_000]]);
+            res.extra_keys.push(key(1));
+            res.sent_partial = true;
+            let mut w = tx.try_clone().unwrap();
+            let cap = stop_after + Duration::from_secs(25);
+            let gap = r.range(1, 3);
+            let writer = std::thread::spawn(move || {
+                let t0 = Instant::now();
+                let mut i = 0usize;
+                while t0.elapsed() < cap && i < big.len() {
+                    if w.write_all(&big[i..i + 1]).is_err() {
+                        break;
+                    }
+                    i += 1;
+                    std::thread::sleep(Duration::from_millis(gap));
+                }
+            });
+            let end = rx.drain(Instant::now() + cap + Duration::from_secs(20));
+            res.end = match end {
+                ReadErr::Eof => "eof".into(),
+                ReadErr::Reset(e) => format!("reset: {}", e),
+                ReadErr::Timeout => "still-open-after-45s".into(),
+            };
+            // the upload goes on after the server's end-of-stream, until the server has closed its side
+            // for good (the next byte then fails) or the cap is reached
+            let _ = writer.join();
+            let _ = rx.s.shutdown(std::net::Shutdown::Both);
+            res.received = std::mem::take(&mut rx.buf);
+            return res;
+        }
         State::BigReply => {
             let k = key(0);
             // half of these replies are larger than what the socket buffers of both sides can absorb
@@ -177,15 +216,19 @@ fn client(port: u16, id: usize, state: State, seed: u64, stop_after: Duration) -
             }
             let size = if huge { r.range(6_000_000, 12_000_000) } else { r.range(300_000, 1_000_000) } as usize;
             let v = crate::checks::c04::value_for(id as u64 + 1, size);
-            let _ = tx.write_all(&command(&[b"SET", &k, &v]));
+            // the SET and several GETs of it go out in ONE write: this client must not send anything
+            // once the server may have begun to close (a request that arrives after the server's
+            // drain has ended resets the connection and tears the reply in flight; with separate
+            // writes a pre-empted client thread did that once on a loaded machine, see DESIGN 8)
+            let mut all = command(&[b"SET", &k, &v]);
             res.sent.push((k.clone(), Some(v.clone())));
             res.expected.push(b"+OK\r\n".to_vec());
-            // ask for it several times and read slowly
             for _ in 0..(if huge { r.range(1, 2) } else { r.range(1, 4) }) {
-                let _ = tx.write_all(&command(&[b"GET", &k]));
+                all.extend_from_slice(&command(&[b"GET", &k]));
                 res.sent.push((k.clone(), Some(v.clone())));
                 res.expected.push(encode(&RFrame::Bulk(v.clone())));
             }
+            let _ = tx.write_all(&all);
             let d = Instant::now() + stop_after + Duration::from_millis(200);
             while Instant::now() < d && !rx.eof && rx.err.is_none() {
                 rx.poll();
@@ -226,7 +269,7 @@ fn scenario(ctx: &Ctx, case: u64, out: &mut Out) {
     };
     let port = srv.port;
     let trigger_after = Duration::from_millis(*r.pick(&[5u64, 20, 50, 120, 250]) + r.range(0, 30));
-    let states: Vec<State> = (0..nclients).map(|i| if i == 0 { *r.pick(&[State::Streaming, State::HalfFrame]) } else { *r.pick(&[State::Idle, State::HalfFrame, State::Streaming, State::Streaming, State::BigReply, State::Flooding]) }).collect();
+    let states: Vec<State> = (0..nclients).map(|i| if i == 0 { *r.pick(&[State::Streaming, State::HalfFrame]) } else { *r.pick(&[State::Idle, State::HalfFrame, State::Streaming, State::Streaming, State::BigReply, State::Flooding, State::Trickling]) }).collect();
     let mut ts = Vec::new();
     for (i, st) in states.iter().enumerate() {
         let st = *st;
